@@ -1,2 +1,56 @@
-(* placeholder: theorems being added *)
-From DC Require Import Model.Base Model.Specs.
+(* C09 - Localized objectives measure exactly the global score change of a local edit.
+   For every modelled built-in class other than UniquifyAllKmers (excluded by the property) and
+   AvoidHairpins (not proved yet: covered by the differential run only), every well-formed instance,
+   every window W inside the sequence and every pair of sequences that differ only inside W:
+     score(localized S, s') - score(localized S, s) == score(S, s') - score(S, s),
+   and when localization yields nothing the score does not change ([local_delta_law]). *)
+From Coq Require Import ZArith QArith Bool List Lia Ascii String.
+From DC Require Import Model.Base Model.Loc Model.Bio Model.Pattern Model.MSpace Model.Specs
+                       Proofs.SpecsDefs Proofs.SpecsLocalA Proofs.SpecsLocalB Proofs.SpecsLocalC.
+Import ListNotations.
+Open Scope Z_scope.
+Open Scope string_scope.
+
+(* extra side conditions of two classes (they hold for every instance the library builds) *)
+Definition c09_side (sp : spec) : Prop :=
+  match sp with
+  | SEnforceChanges l idx _ mn am is100 =>
+      is100 = true -> mn = None /\ am = Some (zq (match idx with Some ix => zlen ix | None => loc_len l end))
+  | SMaximizeCAI lf lb _ => forall c f b, qassoc c lf = Some f -> qassoc c lb = Some b -> (f <= b)%Q
+  | _ => True
+  end.
+Definition c09_class (sp : spec) : bool :=
+  match sp with SUniquify _ _ _ _ _ | SHairpins _ _ _ => false | _ => true end.
+
+Theorem C09_localized_score_difference_is_global : forall sp w s s',
+  c09_class sp = true -> wf_spec sp (zlen s) -> c09_side sp ->
+  window_in w (zlen s) -> agree_outside w s s' ->
+  local_delta_law sp w s s'.
+Proof.
+  intros sp w s s' Hc Hwf Hside Hw Ha.
+  destruct sp; try discriminate Hc.
+  - apply avoid_pattern_delta; assumption.
+  - apply pattern_occ_delta; assumption.
+  - apply gc_delta; assumption.
+  - apply translation_laws; assumption.
+  - apply stop_codons_laws; assumption.
+  - apply avoid_changes_laws; assumption.
+  - apply enforce_changes_laws; assumption.
+  - apply enforce_sequence_laws; assumption.
+  - apply enforce_choice_laws.
+  - apply rare_codons_laws; assumption.
+  - apply maximize_cai_laws; assumption.
+  - apply harmonize_laws; assumption.
+  - apply terminal_gc_laws; assumption.
+  - apply length_laws; assumption.
+Qed.
+Print Assumptions C09_localized_score_difference_is_global.
+
+(* Non-vacuity: a concrete instance where the window straddles the border of the location and the
+   edit creates one occurrence inside and destroys none *)
+Example C09_ex :
+  let sp := SAvoidPattern (PDna (list_ascii_of_string "AAT")) (mkLoc 2 12 1) in
+  let s := sq "CCAATCCCCCCCCC" in let s' := sq "CCAATCAATCCCCC" in
+  localized sp (mkLoc 6 8 0) true s = LSome (SAvoidPattern (PDna (list_ascii_of_string "AAT")) (mkLoc 4 10 1))
+  /\ delta sp s s' = Some (-1 # 1)%Q.
+Proof. vm_compute. split; reflexivity. Qed.
